@@ -364,16 +364,150 @@ func runProbe(c PCase) *hx.Outcome {
 	return o
 }
 
+// ---- (c) the same messages removed by several parties at once ----
+
+type RCase struct {
+	Backend string `json:"backend"`
+	Cap     int    `json:"cap"`
+	MaxKB   int    `json:"maxkb"`
+	N       int    `json:"n"`       // messages pre-delivered to one mailbox
+	Workers []int  `json:"workers"` // per worker: 0 = remove every id in order, 1 = in reverse, 2 = purge, 3 = deliver more
+}
+
+var propRace = hx.Prop[RCase]{
+	ID: pid, Name: "racing",
+	Rule: "5-25 messages are delivered to one mailbox (mem with cap/size limit, or file), then 3-8 goroutines at once remove every id in " +
+		"order, in reverse, purge the mailbox, or keep delivering (cap/size evictions): however the removals of one message overlap, " +
+		"the conservation oracle must hold after quiescence - in particular each message's deleted event exactly once; non-trivial = at " +
+		"least two workers remove the same ids",
+	Quick: 60, Thorough: 600,
+	Gen: func(t *rapid.T) RCase {
+		c := RCase{Backend: rapid.SampledFrom([]string{"mem", "mem", "file"}).Draw(t, "backend"), Cap: rapid.SampledFrom([]int{0, 0, 10}).Draw(t, "cap"), N: rapid.IntRange(5, 25).Draw(t, "n")}
+		if c.Backend == "mem" {
+			c.MaxKB = rapid.SampledFrom([]int{0, 0, 4}).Draw(t, "maxkb")
+		}
+		c.Workers = rapid.SliceOfN(rapid.SampledFrom([]int{0, 0, 0, 1, 1, 2, 3}), 3, 8).Draw(t, "workers")
+		return c
+	},
+	Run: func(c RCase) *hx.Outcome {
+		o := &hx.Outcome{}
+		cfg := hx.DefaultCfg()
+		cfg.Backend, cfg.Cap, cfg.MaxKB, cfg.NoHTTP = c.Backend, c.Cap, c.MaxKB, true
+		w, err := hx.NewWorld(cfg)
+		if err != nil {
+			o.Failf(pid+":harness", "world: %v", err)
+			return o
+		}
+		defer w.Close()
+		rec := &recorder{}
+		w.Host.Events.AfterMessageStored.AddListener("verif", func(m event.MessageMetadata) {
+			rec.mu.Lock()
+			rec.stored = append(rec.stored, key{m.Mailbox, m.ID})
+			rec.mu.Unlock()
+		})
+		w.Host.Events.AfterMessageDeleted.AddListener("verif", func(m event.MessageMetadata) {
+			rec.mu.Lock()
+			rec.deleted = append(rec.deleted, key{m.Mailbox, m.ID})
+			rec.mu.Unlock()
+		})
+		origin, _ := w.Policy.ParseOrigin("s@a.test")
+		rc, _ := w.Policy.NewRecipient("race@a.test")
+		var dmu sync.Mutex
+		deliveries := map[string]int{}
+		deliver := func() {
+			if err := w.Manager.Deliver(origin, []*policy.Recipient{rc}, "Received: from h ([1.1.1.1]) by d\r\n", []byte("Subject: r\r\n\r\n"+strings.Repeat("y", 200)+"\r\n")); err == nil {
+				dmu.Lock()
+				deliveries["race"]++
+				dmu.Unlock()
+			}
+		}
+		for i := 0; i < c.N; i++ {
+			deliver()
+		}
+		ms, _ := w.Store.GetMessages("race")
+		var ids []string
+		for _, m := range ms {
+			ids = append(ids, m.ID())
+		}
+		var wg sync.WaitGroup
+		start := make(chan struct{})
+		removers := 0
+		for _, kind := range c.Workers {
+			if kind <= 1 {
+				removers++
+			}
+			wg.Add(1)
+			go func(kind int) {
+				defer wg.Done()
+				<-start
+				switch kind {
+				case 0:
+					for _, id := range ids {
+						_ = w.Store.RemoveMessage("race", id)
+					}
+				case 1:
+					for i := len(ids) - 1; i >= 0; i-- {
+						_ = w.Store.RemoveMessage("race", ids[i])
+					}
+				case 2:
+					_ = w.Store.PurgeMessages("race")
+				case 3:
+					for i := 0; i < 5; i++ {
+						deliver()
+					}
+				}
+			}(kind)
+		}
+		close(start)
+		done := make(chan struct{})
+		go func() { wg.Wait(); close(done) }()
+		select {
+		case <-done:
+		case <-time.After(hx.ReplyTimeout):
+			o.Failf(pid+":deadlock", "concurrent removers did not finish within %v", hx.ReplyTimeout)
+			return o
+		}
+		var msg string
+		deadline := time.Now().Add(10 * time.Second)
+		for {
+			s, d := rec.snapshot()
+			lv, err := live(w.Store)
+			if err != nil {
+				o.Failf(pid+":store", "VisitMailboxes: %v", err)
+				return o
+			}
+			msg = judge(s, d, lv, deliveries)
+			if msg == "" || time.Now().After(deadline) {
+				break
+			}
+			time.Sleep(2 * time.Millisecond)
+		}
+		if msg == "" {
+			time.Sleep(30 * time.Millisecond)
+			s, d := rec.snapshot()
+			lv, _ := live(w.Store)
+			msg = judge(s, d, lv, deliveries)
+		}
+		if msg != "" {
+			s, d := rec.snapshot()
+			o.Failf(pid+":event-accounting", "[%s cap=%d maxkb=%d, workers %v] %s (stored events %d, deleted events %d)", c.Backend, c.Cap, c.MaxKB, c.Workers, msg, len(s), len(d))
+		}
+		o.NonTrivial = removers >= 2
+		return o
+	},
+}
+
 func TestProp(t *testing.T) {
 	t.Run("events", prop.Check)
 	t.Run("probe", propProbe.Check)
+	t.Run("racing", propRace.Check)
 }
-func TestRegress(t *testing.T) { prop.Regress(t); propProbe.Regress(t) }
+func TestRegress(t *testing.T) { prop.Regress(t); propProbe.Regress(t); propRace.Regress(t) }
 func TestReplay(t *testing.T) {
 	if *hx.ReplayPath == "" {
 		t.Skip("no -replay")
 	}
-	if !prop.Replay(t, *hx.ReplayPath) && !propProbe.Replay(t, *hx.ReplayPath) {
+	if !prop.Replay(t, *hx.ReplayPath) && !propProbe.Replay(t, *hx.ReplayPath) && !propRace.Replay(t, *hx.ReplayPath) {
 		t.Fatalf("no prop matches %s", *hx.ReplayPath)
 	}
 }
